@@ -62,16 +62,21 @@ pub struct NameCompressor {
     /// - Uninitialized entries: 0.
     len: [u8; 32],
 
-    /// The parent of this entry, if any.
+    /// The position the name in this entry continues at, if any.
     ///
-    /// If this entry represents a compressed domain name, this value stores
-    /// the index of that entry.
+    /// If this entry represents a compressed domain name, it is followed (in
+    /// the message) by a compression pointer; this value stores the position
+    /// that pointer refers to (as a byte offset from the message contents).
+    /// Another name can only be compressed using this entry if the remainder
+    /// of that name was compressed to exactly this position. (Remembering
+    /// only which entry the pointer refers into is not enough: different
+    /// names can continue at different positions within the same entry.)
     ///
     /// Valid values:
-    /// - Initialized entries with parents: `[32, 63]`.
-    /// - Initialized entries without parents: 64.
+    /// - Initialized entries with parents: `[0, 16371]`.
+    /// - Initialized entries without parents: `NO_PARENT`.
     /// - Uninitialized entries: 0.
-    parent: [u8; 32],
+    parent: [u16; 32],
 
     /// A 16-bit hash of the entry's last label.
     ///
@@ -86,13 +91,23 @@ pub struct NameCompressor {
 }
 
 impl NameCompressor {
+    /// The first position (in the message contents) that cannot be the
+    /// target of a compression pointer.
+    ///
+    /// A compression pointer holds a 14-bit offset from the start of the
+    /// message, i.e. including the 12-byte message header.
+    const MAX_POS: usize = 0x4000 - 12;
+
+    /// The 'parent' value of entries that end with the root label.
+    const NO_PARENT: u16 = u16::MAX;
+
     /// Construct an empty [`NameCompressor`].
     pub const fn new() -> Self {
         Self {
             last_use: [0u16; 32],
             pos: [0u16; 32],
             len: [0u8; 32],
-            parent: [0u8; 32],
+            parent: [0u16; 32],
             hash: [0u16; 32],
         }
     }
@@ -131,15 +146,15 @@ impl NameCompressor {
             return None;
         }
 
-        let mut parent = 64u8;
         let mut parent_offset = None;
 
         // Repeatedly look up entries that could be used for compression.
         while !name.is_empty() {
+            let parent = parent_offset.unwrap_or(Self::NO_PARENT);
             match self.lookup_entry_for_revname(contents, name, parent) {
                 Some(entry) => {
-                    let tmp;
-                    (parent, name, tmp) = entry;
+                    let (index, tmp);
+                    (index, name, tmp) = entry;
                     parent_offset = Some(tmp);
 
                     // This entry was successfully used for compression.
@@ -147,7 +162,7 @@ impl NameCompressor {
                     let use_pos = contents.len() + name.len();
                     let use_pos = use_pos.max(1);
                     if use_pos < 16383 + 253 {
-                        self.last_use[parent as usize] = use_pos as u16;
+                        self.last_use[index as usize] = use_pos as u16;
                     }
                 }
                 None => break,
@@ -156,7 +171,7 @@ impl NameCompressor {
 
         // If there is a non-empty uncompressed prefix, register it as a new
         // entry here.
-        if !name.is_empty() && contents.len() < 16384 {
+        if !name.is_empty() && contents.len() < Self::MAX_POS {
             // SAFETY: 'name' is a non-empty sequence of labels.
             let first = unsafe {
                 LabelIter::new_unchecked(name).next().unwrap_unchecked()
@@ -173,7 +188,7 @@ impl NameCompressor {
             self.last_use[index] = contents.len() as u16;
             self.pos[index] = contents.len() as u16;
             self.len[index] = name.len() as u8;
-            self.parent[index] = parent;
+            self.parent[index] = parent_offset.unwrap_or(Self::NO_PARENT);
             self.hash[index] = Self::hash_label(first);
         }
 
@@ -193,7 +208,7 @@ impl NameCompressor {
         &self,
         contents: &[u8],
         name: &'n [u8],
-        parent: u8,
+        parent: u16,
     ) -> Option<(u8, &'n [u8], u16)> {
         // SAFETY: 'name' is a sequence of labels.
         let mut name_labels = unsafe { LabelIter::new_unchecked(name) };
@@ -205,7 +220,10 @@ impl NameCompressor {
         for i in 0..32 {
             // Check the hash first, as it's less likely to match. It's also
             // okay if both checks are performed unconditionally.
-            if self.hash[i] != hash || self.parent[i] != parent {
+            if self.len[i] == 0
+                || self.hash[i] != hash
+                || self.parent[i] != parent
+            {
                 continue;
             };
 
@@ -232,7 +250,14 @@ impl NameCompressor {
             }
             entry = &entry[..entry.len() - first.as_wire().len()];
 
-            for label in name_labels.clone() {
+            // NOTE: 'rest_labels' is only advanced past the labels that
+            // matched; what remains of it is the uncompressed prefix.
+            let mut rest_labels = name_labels.clone();
+            loop {
+                let mut next_labels = rest_labels.clone();
+                let Some(label) = next_labels.next() else {
+                    break;
+                };
                 if entry.len() < label.as_wire().len()
                     || !entry[entry.len() - label.as_wire().len()..]
                         .eq_ignore_ascii_case(label.as_wire())
@@ -240,13 +265,18 @@ impl NameCompressor {
                     break;
                 }
                 entry = &entry[..entry.len() - label.as_wire().len()];
+                rest_labels = next_labels;
             }
 
             // Suffixes from 'entry' that were also in 'name' have been
             // removed. The remainder of 'entry' does not match with 'name'.
             // 'name' can be compressed using this entry.
-            let rest = name_labels.remaining();
+            let rest = rest_labels.remaining();
             let pos = pos + entry.len();
+            if pos >= Self::MAX_POS {
+                // A compression pointer cannot address this position.
+                continue;
+            }
             return Some((i as u8, rest, pos as u16));
         }
 
@@ -288,15 +318,15 @@ impl NameCompressor {
         }
 
         let mut hash = Self::hash_label(Self::last_label(name));
-        let mut parent = 64u8;
         let mut parent_offset = None;
 
         // Repeatedly look up entries that could be used for compression.
         while !name.is_empty() {
+            let parent = parent_offset.unwrap_or(Self::NO_PARENT);
             match self.lookup_entry_for_name(contents, name, parent, hash) {
                 Some(entry) => {
-                    let tmp;
-                    (parent, name, hash, tmp) = entry;
+                    let (index, tmp);
+                    (index, name, hash, tmp) = entry;
                     parent_offset = Some(tmp);
 
                     // This entry was successfully used for compression.
@@ -304,7 +334,7 @@ impl NameCompressor {
                     let use_pos = contents.len() + name.len();
                     let use_pos = use_pos.max(1);
                     if use_pos < 16383 + 253 {
-                        self.last_use[parent as usize] = use_pos as u16;
+                        self.last_use[index as usize] = use_pos as u16;
                     }
                 }
                 None => break,
@@ -313,7 +343,7 @@ impl NameCompressor {
 
         // If there is a non-empty uncompressed prefix, register it as a new
         // entry here. We already know what the hash of its last label is.
-        if !name.is_empty() && contents.len() < 16384 {
+        if !name.is_empty() && contents.len() < Self::MAX_POS {
             // Pick the entry that was least recently used (or uninitialized).
             //
             // By the invariants of 'last_use', it is guaranteed that this
@@ -325,7 +355,7 @@ impl NameCompressor {
             self.last_use[index] = contents.len() as u16;
             self.pos[index] = contents.len() as u16;
             self.len[index] = name.len() as u8;
-            self.parent[index] = parent;
+            self.parent[index] = parent_offset.unwrap_or(Self::NO_PARENT);
             self.hash[index] = hash;
         }
 
@@ -346,7 +376,7 @@ impl NameCompressor {
         &self,
         contents: &[u8],
         name: &'n [u8],
-        parent: u8,
+        parent: u16,
         hash: u16,
     ) -> Option<(u8, &'n [u8], u16, u16)> {
         // SAFETY: 'name' is a non-empty sequence of labels.
@@ -356,7 +386,10 @@ impl NameCompressor {
         for i in 0..32 {
             // Check the hash first, as it's less likely to match. It's also
             // okay if both checks are performed unconditionally.
-            if self.hash[i] != hash || self.parent[i] != parent {
+            if self.len[i] == 0
+                || self.hash[i] != hash
+                || self.parent[i] != parent
+            {
                 continue;
             };
 
@@ -379,39 +412,42 @@ impl NameCompressor {
             )
             .position(|(a, b)| a != b);
 
-            let Some(suffix_len) = suffix_len else {
+            let suffix_len = if let Some(suffix_len) = suffix_len {
+                suffix_len
+            } else if name.len() > entry.len() {
                 // 'iter::zip()' simply ignores unequal iterators, stopping
                 // when either iterator finishes. Even though the two names
                 // had no mismatching bytes, one could be longer than the
                 // other.
-                if name.len() > entry.len() {
-                    // 'entry' is a proper suffix of 'name'. 'name' can be
-                    // compressed using 'entry', and will have at least one
-                    // more label before it. This label needs to be found and
-                    // hashed.
-
-                    let rest = &name[..name.len() - entry.len()];
-                    let hash = Self::hash_label(Self::last_label(rest));
-                    return Some((i as u8, rest, hash, pos as u16));
-                } else {
-                    // 'name' is a suffix of 'entry'. 'name' can be
-                    // compressed using 'entry', and no labels will be left.
-                    let rest = &name[..0];
-                    let hash = 0u16;
-                    let pos = pos + len - name.len();
-                    return Some((i as u8, rest, hash, pos as u16));
+                //
+                // The bytes of 'entry' are a proper suffix of the bytes of
+                // 'name'. They need not begin on a label boundary of 'name'
+                // (a label of 'name' can contain bytes that look like the
+                // first labels of 'entry'), so the labels of 'name' are
+                // walked below, like for a partial match.
+                entry.len()
+            } else {
+                // 'name' is a suffix of 'entry'. 'name' can be
+                // compressed using 'entry', and no labels will be left.
+                let rest = &name[..0];
+                let hash = 0u16;
+                let pos = pos + len - name.len();
+                if pos >= Self::MAX_POS {
+                    // A compression pointer cannot address this position.
+                    continue;
                 }
+                return Some((i as u8, rest, hash, pos as u16));
             };
 
             // Walk 'name' until we reach the shared suffix region.
 
             // NOTE:
-            // - 'suffix_len < min(name.len(), entry.len())'.
+            // - 'suffix_len < name.len()' and 'suffix_len <= entry.len()'.
             // - 'name_labels.remaining.len() == name.len()'.
             // - Thus 'suffix_len < name_labels.remaining.len()'.
             // - Thus we can move the first statement of the loop here.
             // SAFETY:
-            // - 'name' and 'entry' have a corresponding but unequal byte.
+            // - 'name' is longer than the shared suffix.
             // - Thus 'name' has at least one byte.
             // - Thus 'name' has at least one label.
             let mut name_labels = name_labels.clone();
@@ -439,6 +475,10 @@ impl NameCompressor {
             let rest = &name[..name.len() - suffix_len];
             let hash = Self::hash_label(prev_in_name);
             let pos = pos + len - suffix_len;
+            if pos >= Self::MAX_POS {
+                // A compression pointer cannot address this position.
+                continue;
+            }
             return Some((i as u8, rest, hash, pos as u16));
         }
 
